@@ -867,7 +867,7 @@ func builtinArrayOf(env *lisp.LEnv, args *lisp.LVal) *lisp.LVal {
 		for k, v := range input.Cells[1].Cells {
 			matched := false
 			for _, compare := range compares {
-				if applyConstraint(env, compare, v).IsNil() {
+				if applyConstraint(env, compare, v).Type != lisp.LError {
 					matched = true
 					break
 				}
@@ -1004,7 +1004,7 @@ func builtinHasKey(env *lisp.LEnv, args *lisp.LVal) *lisp.LVal {
 			return lisp.ErrorConditionf(FailedConstraint, "Map does not have key %s", key)
 		}
 		for _, compare := range compares {
-			if applyConstraint(env, compare, val).IsNil() {
+			if applyConstraint(env, compare, val).Type != lisp.LError {
 				matched = true
 				break
 			}
@@ -1054,7 +1054,7 @@ func builtinMayHaveKey(env *lisp.LEnv, args *lisp.LVal) *lisp.LVal {
 			return lisp.String(key)
 		}
 		for _, compare := range compares {
-			if applyConstraint(env, compare, val).IsNil() {
+			if applyConstraint(env, compare, val).Type != lisp.LError {
 				matched = true
 				break
 			}
